@@ -234,6 +234,18 @@ def rule_loop_exit(ctx):
                         f"`{fn.qual}` leaves its accumulating loop `{desc}` with `{txt[:100]}`, which is not a failure value: the elements after the current one are never processed (e.g. `#[error(not(backtrace), source)]` loses `source`)",
                         {},
                     )
+                # `continue` / `break`: the element (or the rest) is dropped without a diagnostic - closed set, expected empty
+                for c_, ps in A.find(body, ("Expr::Continue", "Expr::Break")):
+                    if any(A.kind(p) in ("Expr::Closure", "Expr::ForLoop", "Expr::While", "Expr::Loop") and p is not loop for p in ps):
+                        continue
+                    kw = "continue" if A.kind(c_) == "Expr::Continue" else "break"
+                    ctx.report(
+                        f"loopexit:{rel}::{fn.qual}:{kw}",
+                        ctx.where(f, c_),
+                        f"`{fn.qual}` skips {'the rest of the body for one element' if kw == 'continue' else 'all remaining elements'} of its accumulating loop `{desc}` with `{kw}`: what the loop records for every element "
+                        "(an impl group, an arm, a predicate) is silently missing for the elements taking that path (a variant whose fields are all ignored drops out of the `()` conversion)",
+                        {},
+                    )
     ctx.floor("accumulating loops", n, 8)
 
 
@@ -350,3 +362,35 @@ def rule_shared_cursor(ctx):
     kinds = sorted(k for k, *_ in got)
     if kinds != ["cursor", "cursor-reuse"]:
         ctx.report("cursor:positive-control", "rules/positive/cursor.rs", f"the positive control yields {kinds} instead of one site of each kind", {})
+
+
+def rule_monotone_flags(ctx):
+    """MONOTONE: a struct field that the crate sets with a literal (`convs.consider_fields_ty = true` when a bare `owned` / `ref` / `ref_mut` keyword is seen) is a monotone flag: every assignment to a field of that name stores a literal. Assigning it a *computed* value on every pass (`convs.consider_fields_ty = !input.peek(Paren)`) lets a later occurrence take back what an earlier one recorded: `#[into(owned, owned(i64))]` loses the conversion to the field's own type."""
+    sites = {}
+    for rel, f in sorted(ctx.files.items()):
+        if not rel.startswith("impl/src/"):
+            continue
+        for fn in A.functions(f):
+            if fn.block is None:
+                continue
+            for a, _ in A.find(fn.block, "Expr::Assign"):
+                l = A.peel(a["left"])
+                if A.kind(l) == "Expr::Field" and A.kind(l["member"]) == "Member::Named":
+                    sites.setdefault(l["member"]["0"]["sym"], []).append((f, fn, a, A.render(a["right"])))
+    n = 0
+    for name, lst in sorted(sites.items()):
+        # flags confirmed by reading (kept when an edit removes their last literal assignment)
+        if not any(r in ("true", "false") for _, _, _, r in lst) and name not in ("consider_fields_ty",):
+            continue
+        for f, fn, a, r in lst:
+            n += 1
+            ctx.instance(f"monotone:{f.rel}::{fn.qual}:{name}", sample={"field": name, "value": r[:60]})
+            if r not in ("true", "false"):
+                ctx.report(
+                    f"monotone:{f.rel}::{fn.qual}:{name}",
+                    ctx.where(f, a["left"]),
+                    f"`{fn.qual}` assigns the flag `{name}` a computed value (`{r[:80]}`) where the crate otherwise only ever *sets* it: a later pass can clear what an earlier one recorded "
+                    "(`#[into(owned, owned(i64))]`: the bare `owned` is forgotten and `From<S> for <field type>` silently disappears)",
+                    {},
+                )
+    ctx.floor("literal flag assignments", n, 1)
